@@ -308,7 +308,7 @@ def random_spec(r, regime="calibrated", features=None):
         residual = f.get("residual", r.random() < 0.4) and len(dests) >= 2
         shares = [r.random() + 0.05 for _ in dests]
         tot = sum(shares)
-        mode = r.choice(["eq1", "lt1", "gt1", "zero_some"]) if regime != "calibrated" else r.choice(["eq1", "eq1", "lt1", "gt1"])
+        mode = r.choice(["eq1", "lt1", "gt1", "zero_some", "near1", "near1"]) if regime != "calibrated" else r.choice(["eq1", "eq1", "lt1", "gt1", "near1"])
         for k, d in enumerate(dests):
             if residual and k == len(dests) - 1:
                 trans.append([j, d, ">"])
@@ -322,6 +322,10 @@ def random_spec(r, regime="calibrated", features=None):
             elif mode == "zero_some" and k == 0 and len(dests) > 1:
                 share = 0.0
             p["value"] = {pop: round(share, 4) for pop in pops}
+            if mode == "near1":
+                # proportions entered with limited precision: sum within 1e-6 of 1 but not exactly 1 (thirds as 0.3333333, sevenths ...)
+                nd = len(dests) - (1 if residual else 0)
+                p["value"] = {pop: round(1.0 / max(nd, 1), 7) + (1e-7 if (k == 0 and nd in (1, 2, 4, 5)) else 0.0) for pop in pops}
             trans.append([j, d, p["name"]])
     # dedupe: a parameter at most once per source; no duplicate (src,dst,par)
     seen = set()
